@@ -94,7 +94,7 @@ def _with_route(rng, base, route):
 
 def gen_cases(rng, tier):
     cases = []
-    nbases = 3 if tier == "quick" else 12
+    nbases = 8 if tier == "quick" else 30
     for bi in range(nbases):
         n = rng.choice([10, 12]) if bi % 3 else 9          # n = 9: a fault at k = 8 hits the last iteration
         base = _base(rng, n, opt_kind=["sgd", "momentum", "schedule", "momentum+schedule"][bi % 4])
